@@ -73,6 +73,8 @@ func main() {
 		runRG(*out, *seed, *n)
 	case "tb":
 		runTB(*out, *seed, *n)
+	case "tbx":
+		runTBExhaustive(*out, *smMax, *smLen, *part, *parts, *smVariant)
 	default:
 		fmt.Fprintln(os.Stderr, "unknown component")
 		os.Exit(2)
